@@ -251,7 +251,7 @@ def versionsDesc (vs : List Nat) : Bytes :=
 def digitVal (c : UInt8) : Nat := c.toNat - 48
 
 /-- `_WS_VERSION_PAT.fullmatch(v)` with the pattern `[0-9]|[1-9][0-9]|1[0-9][0-9]|2[0-4][0-9]|25[0-5]`, then `int(v)`
-(fix PENDING-server-version-syntax; before it the value went through `int()` alone: `+13`, `1_3`, `013` were read as 13) -/
+(fix 3f5d73c8; before it the value went through `int()` alone: `+13`, `1_3`, `013` were read as 13) -/
 def versionNumeral (s : Bytes) : Option Nat :=
   match s with
   | [a] => if isDigit a then some (digitVal a) else none
@@ -411,7 +411,7 @@ structure CliCfg where
   /-- [] = None or "" -/
   origin : Bytes := []
   /-- the protocols the request announces (`request_options.protocols`, kept in `self.websocket_protocols`): what
-  `processHandshake` compares the server's choice with (fix PENDING-client-subprotocol-checked-against-request; before
+  `processHandshake` compares the server's choice with (fix bbd39a59; before
   it the comparison was with `factory.protocols`, which differs when `onConnecting` returns its own request) -/
   protocols : List Bytes := []
   /-- spec (draft) version 10..18 -/
@@ -424,7 +424,7 @@ deriving Repr
 def specToProtocol (v : Nat) : Nat := if v ≤ 12 then 8 else 13
 
 /-- the host as it goes into the Host header: a host containing `:` (an IPv6 address, whose brackets `parse_url`
-removed) is put back into brackets (fix PENDING-client-host-header-ipv6-brackets) -/
+removed) is put back into brackets (fix c9c482eb) -/
 def hostHeader (host : Bytes) : Bytes :=
   if contains 58 host && host.head? != some 91 then [91] ++ host ++ [93] else host
 
@@ -459,7 +459,7 @@ abbrev CStage (α : Type) := Except CliOut α
 def cbad : CStage α := .error .fail
 
 /-- `_HTTP_STATUS_CODE_PAT.fullmatch(code)` with the pattern `[0-9]{3}`, then `int(code)`
-(fix PENDING-client-status-code-syntax; before it `int()` alone: `+101`, `1_01`, `0101` were read as 101) -/
+(fix 900bd49a; before it `int()` alone: `+101`, `1_01`, `0101` were read as 101) -/
 def statusCode (s : Bytes) : Option Nat :=
   match s with
   | [a, b, c] =>
